@@ -8,6 +8,9 @@ From NV Require Import Base.LE Trunc.Stream Trunc.StreamProofs Index.Layout Inde
 From NV Require Import Bgzf.Crc32 Trunc.Cram Trunc.CramProofs Trunc.GziProofs Trunc.TextProofs.
 From NV Require Import Index.CsiLayout Index.CsiLayoutProofs Index.TextIndex Index.TextIndexProofs.
 From NV Require Import Trunc.CsiProofs Trunc.TextIdxProofs Trunc.IndexCut Trunc.IndexCutProofs.
+From NV Require Import Trunc.Header Trunc.HeaderProofs Trunc.TextHeader Trunc.TextHeaderProofs.
+From NV Require Import Trunc.CramBlocks Trunc.CramBlocksProofs Trunc.HeaderSharp.
+From NV Require Sam.Header Sam.HeaderProofs Sam.BamHeader.
 Import ListNotations.
 Open Scope N_scope.
 
@@ -428,6 +431,300 @@ Theorem c13_crai_truncation_prefix : forall l k res, Forall crai_ok l ->
 Proof. exact crai_truncation_prefix. Qed.
 Print Assumptions c13_crai_truncation_prefix.
 
+
+(* ---- header reading over a truncated stream.  BAM: the model is C06's NV.Sam.BamHeader.read_bam_header
+   (magic, l_text, text through io::Take with the sam_header::Reader line discipline and the concrete
+   SAM header parser, n_ref, references, reconciliation), extended to a source that FAILS after its
+   last byte (the BGZF layer below).  For every well-formed header, EVERY cut inside the block the
+   writer emits is an error: the source's error (UnexpectedEof on a source that ends), or InvalidData
+   when the cut is inside the text and the parser refuses the partial last line ---- *)
+Theorem c13_header_truncation_bam : forall h hb, Sam.HeaderProofs.wf_header h ->
+  Sam.BamHeader.write_bam_header h = Some hb ->
+  forall after k, (k < length hb)%nat ->
+  exists e, bam_read_header after (firstn k hb) = HErr e /\ (e = short after \/ e = InvalidData).
+Proof. exact bam_header_truncation. Qed.
+Print Assumptions c13_header_truncation_bam.
+
+(* the sharper form: InvalidData only for a cut inside the text (magic and l_text present, fewer
+   than l_text bytes behind them) *)
+Theorem c13_header_cut_bam : forall h hb, Sam.HeaderProofs.wf_header h ->
+  Sam.BamHeader.write_bam_header h = Some hb ->
+  forall after p q, hb = p ++ q -> q <> [] ->
+  exists e, bam_read_header after p = HErr e /\
+    (e = short after \/ (e = InvalidData /\ exists t, bam_short_text p = Some t)).
+Proof. exact bam_header_cut. Qed.
+Print Assumptions c13_header_cut_bam.
+
+(* below a FAILING source (the BGZF layer reporting a torn block) every cut inside a written BAM
+   header returns exactly the source's error: the complete lines delivered are written lines and are
+   accepted, the partial last line is never handed to the parser *)
+Theorem c13_header_cut_bam_failing_source : forall h hb, Sam.HeaderProofs.wf_header h ->
+  Sam.BamHeader.write_bam_header h = Some hb ->
+  forall e p q, hb = p ++ q -> q <> [] -> bam_read_header (Err e) p = HErr e.
+Proof. exact bam_header_cut_failing. Qed.
+Print Assumptions c13_header_cut_bam_failing_source.
+
+Theorem c13_header_whole_bam : forall h hb, Sam.HeaderProofs.wf_header h ->
+  Sam.BamHeader.write_bam_header h = Some hb ->
+  forall after rest, bam_read_header after (hb ++ rest) = HOk h rest.
+Proof. exact bam_header_whole. Qed.
+Print Assumptions c13_header_whole_bam.
+
+(* BCF (model of bcf/src/io/reader/header.rs + header/vcf_header.rs after repair b36f6c8; the VCF
+   header parser - parse_partial + insert_entry per line, finish - is a parameter): EVERY cut
+   inside the block magic, version, l_text, text, NUL is an error, WHATEVER the header parser does
+   with the partial text: discard_to_end demands all l_text bytes *)
+Theorem c13_header_truncation_bcf :
+  forall (St H : Type) (init : St) (parse_line : St -> list N -> option St) (finish : St -> option H)
+         maj min (text : list N) after k,
+    N.of_nat (length text) + 1 < 4294967296 ->
+    (k < length (bcf_header_block maj min text))%nat ->
+    exists e, bcf_read_header St H init parse_line finish after (firstn k (bcf_header_block maj min text)) = HErr e /\
+              (e = short after \/ e = InvalidData).
+Proof. exact bcf_header_truncation. Qed.
+Print Assumptions c13_header_truncation_bcf.
+
+Theorem c13_header_whole_bcf :
+  forall (St H : Type) (init : St) (parse_line : St -> list N -> option St) (finish : St -> option H)
+         after maj min ls h rest,
+    N.of_nat (length (bcf_text ls)) + 1 < 4294967296 ->
+    bcf_header_good St H init parse_line finish ls h ->
+    bcf_read_header St H init parse_line finish after (bcf_header_block maj min (bcf_text ls) ++ rest) = HOk h rest.
+Proof. exact bcf_header_whole. Qed.
+Print Assumptions c13_header_whole_bcf.
+
+(* ---- the whole file = header + records, for ANY header reader that reads its written block and
+   fails on every strict prefix of it, and any record reader ---- *)
+Theorem c13_file_truncation :
+  forall (H A : Type) (hdr : stop -> list N -> hres H) (rd : stop -> list N -> step A) (hb : list N) (h : H),
+    (forall after rest, hdr after (hb ++ rest) = HOk h rest) ->
+    (forall after p q, hb = p ++ q -> q <> [] -> exists e, hdr after p = HErr e) ->
+    forall after payload k,
+      ((k < length hb)%nat ->
+         exists e, hdr after (firstn k hb) = HErr e /\
+           file_read hdr rd after (firstn k (hb ++ payload)) = (None, ([], Err e))) /\
+      ((length hb <= k)%nat ->
+         file_read hdr rd after (firstn k (hb ++ payload)) =
+           (Some h, read_stream (rd after) (firstn (k - length hb) payload))).
+Proof. exact file_truncation. Qed.
+Print Assumptions c13_file_truncation.
+
+(* BAM file (uncompressed stream): header block ++ records, EVERY cut: an error and no record
+   inside the header; behind it the written header, the records wholly inside the cut, a clean end
+   exactly at record boundaries (and at the end of the header) and an error inside a record *)
+Theorem c13_bam_file_truncation : forall h hb rs after k,
+  Sam.HeaderProofs.wf_header h -> Sam.BamHeader.write_bam_header h = Some hb -> Forall bam_good rs ->
+  let file := hb ++ bam_encode rs in
+  ((k < length hb)%nat ->
+     exists e, file_read bam_read_header bam_read_record after (firstn k file) = (None, ([], Err e)) /\
+               (e = short after \/ e = InvalidData)) /\
+  ((length hb <= k)%nat ->
+     exists j : nat,
+       (j <= length rs)%nat /\
+       (length hb + length (bam_encode (firstn j rs)) <= k)%nat /\
+       (j < length rs -> k < length hb + length (bam_encode (firstn (S j) rs)))%nat /\
+       file_read bam_read_header bam_read_record after (firstn k file) =
+         (Some h, (firstn j rs,
+                   if (j <? length rs)%nat && negb (k =? length hb + length (bam_encode (firstn j rs)))%nat
+                   then Err (short after) else after))).
+Proof. exact bam_file_truncation. Qed.
+Print Assumptions c13_bam_file_truncation.
+
+Theorem c13_bcf_file_truncation :
+  forall (St H : Type) (init : St) (parse_line : St -> list N -> option St) (finish : St -> option H)
+         (site_ok : list N -> option ekind) maj min ls h rs after k,
+    N.of_nat (length (bcf_text ls)) + 1 < 4294967296 ->
+    bcf_header_good St H init parse_line finish ls h -> Forall (bcf_good site_ok) rs ->
+    let hdr := bcf_read_header St H init parse_line finish in
+    let hb := bcf_header_block maj min (bcf_text ls) in
+    let file := hb ++ bcf_encode rs in
+    ((k < length hb)%nat ->
+       exists e, file_read hdr (bcf_read_record site_ok) after (firstn k file) = (None, ([], Err e)) /\
+                 (e = short after \/ e = InvalidData)) /\
+    ((length hb <= k)%nat ->
+       exists j : nat,
+         (j <= length rs)%nat /\
+         (length hb + length (bcf_encode (firstn j rs)) <= k)%nat /\
+         (j < length rs -> k < length hb + length (bcf_encode (firstn (S j) rs)))%nat /\
+         file_read hdr (bcf_read_record site_ok) after (firstn k file) =
+           (Some h, (firstn j rs,
+                     if (j <? length rs)%nat && negb (k =? length hb + length (bcf_encode (firstn j rs)))%nat
+                     then Err (short after) else after))).
+Proof. exact bcf_file_truncation. Qed.
+Print Assumptions c13_bcf_file_truncation.
+
+(* ---- the same files behind the BGZF layer: whatever the cut k of the compressed file, the file
+   reader (header AND records) behaves as on the first n bytes of the uncompressed stream - n = the
+   data of the frames wholly inside the cut - followed by the BGZF layer's outcome s (Eof, or
+   UnexpectedEof for a torn block); c13_bam_file_truncation / c13_bcf_file_truncation (which hold
+   for every [after]) then give the result: error inside the header, else header + the records
+   wholly inside n, clean end only if s = Eof and n is a record boundary; n = the whole stream only
+   when every frame is inside the cut ---- *)
+Theorem c13_bam_file_over_bgzf_truncation :
+  forall (inflate : list N -> option (list N)) h hb rs fs k,
+    Sam.HeaderProofs.wf_header h -> Sam.BamHeader.write_bam_header h = Some hb ->
+    Forall (frame_good inflate) fs ->
+    concat (map (frame_data inflate) fs) = hb ++ bam_encode rs ->
+    exists (j : nat) (s : stop),
+      bgzf_blocks inflate (firstn k (bgzf_file fs)) = (map (frame_data inflate) (firstn j fs), s) /\
+      (s = Eof \/ s = Err UnexpectedEof) /\
+      let n := length (concat (map (frame_data inflate) (firstn j fs))) in
+      (n <= length (hb ++ bam_encode rs))%nat /\ (j = length fs -> n = length (hb ++ bam_encode rs)) /\
+      file_over_bgzf inflate bam_read_header bam_read_record (firstn k (bgzf_file fs)) =
+        file_read bam_read_header bam_read_record s (firstn n (hb ++ bam_encode rs)).
+Proof. exact bam_file_over_bgzf_truncation. Qed.
+Print Assumptions c13_bam_file_over_bgzf_truncation.
+
+Theorem c13_bcf_file_over_bgzf_truncation :
+  forall (St H : Type) (init : St) (parse_line : St -> list N -> option St) (finish : St -> option H)
+         (site_ok : list N -> option ekind) (inflate : list N -> option (list N)) maj min ls h rs fs k,
+    N.of_nat (length (bcf_text ls)) + 1 < 4294967296 ->
+    bcf_header_good St H init parse_line finish ls h ->
+    Forall (frame_good inflate) fs ->
+    let hdr := bcf_read_header St H init parse_line finish in
+    let hb := bcf_header_block maj min (bcf_text ls) in
+    concat (map (frame_data inflate) fs) = hb ++ bcf_encode rs ->
+    exists (j : nat) (s : stop),
+      bgzf_blocks inflate (firstn k (bgzf_file fs)) = (map (frame_data inflate) (firstn j fs), s) /\
+      (s = Eof \/ s = Err UnexpectedEof) /\
+      let n := length (concat (map (frame_data inflate) (firstn j fs))) in
+      (n <= length (hb ++ bcf_encode rs))%nat /\ (j = length fs -> n = length (hb ++ bcf_encode rs)) /\
+      file_over_bgzf inflate hdr (bcf_read_record site_ok) (firstn k (bgzf_file fs)) =
+        file_read hdr (bcf_read_record site_ok) s (firstn n (hb ++ bcf_encode rs)).
+Proof. exact bcf_file_over_bgzf_truncation. Qed.
+Print Assumptions c13_bcf_file_over_bgzf_truncation.
+
+
+(* ---- the TEXT header (SAM '@' / VCF '#'; model of {sam,vcf}/src/io/reader/header.rs: the header
+   ends at the first line that does not start with the prefix - C12's closed form hdr_closed -, every
+   line to the header parser, then finish; parser = a parameter, for SAM the concrete parser of C06).
+   The literal statement - a cut inside the header text gives an error or the header of the complete
+   lines - is REFUTED for the SAM reader; what holds for EVERY cut k is the exact result
+   [text_hdr_cut_result]: with j complete header lines and a strict prefix t of line j delivered, a
+   failing source gives its error; a source that ends gives the header the parser builds from the j
+   lines and, if t is not empty, from t taken as a final line without newline - an error if the
+   parser or finish refuse, else a header that can DIFFER from the written one, with no record and a
+   clean end (class text-truncated-header-line-accepted-{sam,vcf}); beyond the header text the written
+   header and the delivered part of the record lines (c13_text_stream_truncation describes them) ---- *)
+Definition c13_text_header_truncation_full_statement : Prop := text_header_literal_statement.
+
+Theorem c13_text_header_truncation_refuted : ~ c13_text_header_truncation_full_statement.
+Proof. exact text_header_truncation_refuted. Qed.
+Print Assumptions c13_text_header_truncation_refuted.
+
+Theorem c13_text_header_truncation :
+  forall (prefix : N) (St H : Type) (init : St) (parse_line : St -> list N -> option St)
+         (finish : St -> option H) hls h body after k,
+    Forall (hline_ok prefix) hls -> th_good St H init parse_line finish hls h ->
+    ((k <= length (htext hls))%nat ->
+       exists j t, (j <= length hls)%nat /\ firstn k (htext hls) = htext (firstn j hls) ++ t /\
+         partial_ok prefix t /\
+         (t = [] \/ exists l u, nth_error hls j = Some l /\ l ++ [10] = t ++ u /\ u <> []) /\
+         text_read_header prefix St H init parse_line finish after (firstn k (htext hls ++ body)) =
+           text_hdr_cut_result St H init parse_line finish after hls j t) /\
+    ((length (htext hls) < k)%nat -> forall x r, body = x :: r -> x <> prefix ->
+       text_read_header prefix St H init parse_line finish after (firstn k (htext hls ++ body)) =
+         HOk h (firstn (k - length (htext hls)) body)).
+Proof. exact text_header_truncation. Qed.
+Print Assumptions c13_text_header_truncation.
+
+(* header + records for any record reader that passes the source's outcome on at end of data (the
+   text record reader does); through BGZF: c13_file_over_bgzf_any below *)
+Theorem c13_text_file_truncation :
+  forall (prefix : N) (St H : Type) (init : St) (parse_line : St -> list N -> option St)
+         (finish : St -> option H) (A : Type) (rd : stop -> list N -> step A) hls h body after k,
+    Forall (hline_ok prefix) hls -> th_good St H init parse_line finish hls h ->
+    (forall a, rd a [] = Stop a) ->
+    let hdr := text_read_header prefix St H init parse_line finish in
+    ((k <= length (htext hls))%nat ->
+       exists j t, (j <= length hls)%nat /\ firstn k (htext hls) = htext (firstn j hls) ++ t /\
+         partial_ok prefix t /\
+         file_read hdr rd after (firstn k (htext hls ++ body)) =
+           match text_hdr_cut_result St H init parse_line finish after hls j t with
+           | HErr e => (None, ([], Err e))
+           | HOk h' _ => (Some h', ([], after))
+           end) /\
+    ((length (htext hls) < k)%nat -> forall x r, body = x :: r -> x <> prefix ->
+       file_read hdr rd after (firstn k (htext hls ++ body)) =
+         (Some h, read_stream (rd after) (firstn (k - length (htext hls)) body))).
+Proof. exact text_file_truncation. Qed.
+Print Assumptions c13_text_file_truncation.
+
+(* ANY header reader and record reader behind the BGZF layer (no premise on the readers): the file
+   reader sees the first n bytes of the uncompressed stream and then the BGZF layer's outcome *)
+Theorem c13_file_over_bgzf_any :
+  forall (H A : Type) (hdr : stop -> list N -> hres H) (rd : stop -> list N -> step A)
+         (inflate : list N -> option (list N)) fs (stream : list N) k,
+    Forall (frame_good inflate) fs ->
+    concat (map (frame_data inflate) fs) = stream ->
+    exists (j : nat) (s : stop),
+      bgzf_blocks inflate (firstn k (bgzf_file fs)) = (map (frame_data inflate) (firstn j fs), s) /\
+      (s = Eof \/ s = Err UnexpectedEof) /\
+      let n := length (concat (map (frame_data inflate) (firstn j fs))) in
+      (n <= length stream)%nat /\ (j = length fs -> n = length stream) /\
+      file_over_bgzf inflate hdr rd (firstn k (bgzf_file fs)) = file_read hdr rd s (firstn n stream).
+Proof. exact file_over_bgzf_any. Qed.
+Print Assumptions c13_file_over_bgzf_any.
+
+
+(* ---- CRAM: the blocks and slices INSIDE a container (model of cram/src/io/reader/container/{block,
+   slice, slice/header}.rs and Container::compression_header / slices; CRC32 = any function, codecs of
+   compressed blocks = a parameter).  What the block-level readers make of a container body that is
+   cut - the situation the container reader excludes by demanding all `length` bytes
+   (c13_cram_container_truncation) -: every strict prefix of a block is UnexpectedEof (header fields,
+   data or the CRC32 field cut), a complete block with a wrong CRC32 is InvalidData, every strict
+   prefix of a slice (header block, core block, external blocks) is UnexpectedEof, and in a container
+   with any number of slices cut at ANY offset the slices wholly inside the cut are decoded and then
+   an ERROR follows - UnexpectedEof in the last slice, InvalidData (invalid landmark) when a landmark
+   points beyond the cut -, never a clean end; the whole body decodes every slice ---- *)
+Theorem c13_cram_block_truncation :
+  forall (crc : list N -> N) ct c j, block_good crc ct c -> (j < length c)%nat ->
+    read_block_as crc ct (firstn j c) = PErr UnexpectedEof.
+Proof. exact block_truncation. Qed.
+Print Assumptions c13_cram_block_truncation.
+
+Theorem c13_cram_block_crc_mismatch :
+  forall (crc : list N -> N) (dec : blk -> ekind + list N) ct c b r ext,
+    blk_fields c = POk b r ->
+    (exists x r', r_u32le r = POk x r' /\ x <> crc (firstn (length c - length r) c)) ->
+    read_block_as crc ct (c ++ ext) = PErr InvalidData.
+Proof. exact block_crc_mismatch. Qed.
+Print Assumptions c13_cram_block_crc_mismatch.
+
+Theorem c13_cram_slice_truncation :
+  forall (crc : list N -> N) (dec : blk -> ekind + list N) c j,
+    slice_good crc dec c -> (j < length c)%nat ->
+    slice_blocks crc dec (firstn j c) = PErr UnexpectedEof.
+Proof. exact slice_truncation. Qed.
+Print Assumptions c13_cram_slice_truncation.
+
+Theorem c13_cram_container_slices_truncation :
+  forall (crc : list N -> N) (dec : blk -> ekind + list N) regions pre j,
+    Forall (slice_good crc dec) regions -> regions <> [] ->
+    (j < length (pre ++ concat regions))%nat ->
+    exists i e, (i < length regions)%nat /\ (e = UnexpectedEof \/ e = InvalidData) /\
+      container_slices crc dec (offsets (length pre) regions) (firstn j (pre ++ concat regions)) =
+        (map (slice_out crc dec) (firstn i regions), Err e).
+Proof. exact container_slices_cut. Qed.
+Print Assumptions c13_cram_container_slices_truncation.
+
+Theorem c13_cram_container_slices_whole :
+  forall (crc : list N -> N) (dec : blk -> ekind + list N) regions pre,
+    Forall (slice_good crc dec) regions ->
+    container_slices crc dec (offsets (length pre) regions) (pre ++ concat regions) =
+      (map (slice_out crc dec) regions, Eof).
+Proof. exact container_slices_whole. Qed.
+Print Assumptions c13_cram_container_slices_whole.
+
+(* a container without slices has no landmark: there the cut is caught by compression_header *)
+Theorem c13_cram_comp_header_cut :
+  forall (crc : list N -> N) (dec : blk -> ekind + list N) ch regions j,
+    (exists bd, r_decoded crc dec CT_COMPRESSION_HEADER ch = POk bd []) ->
+    (j < length ch)%nat ->
+    exists e, container_comp_header crc dec (offsets (length ch) regions) (firstn j (ch ++ concat regions)) = Some e.
+Proof. exact container_comp_header_cut. Qed.
+Print Assumptions c13_cram_comp_header_cut.
+
 (* ---- non-vacuity ---- *)
 (* a 36-byte BAM record (32 fixed bytes, name "r\0", no cigar, 1 base, 1 quality) is [bam_good] *)
 Definition ex_rec : list N :=
@@ -547,3 +844,93 @@ Example c13_ex_fai :
   read_fai (firstn 31 f) = Some [r1; r2] /\
   read_fai (firstn 32 f) = Some [r1; r2].
 Proof. exact fai_trunc_example. Qed.
+
+(* header cuts.  BAM: the header with one reference "s" of length 5 is well formed, its block has
+   36 bytes (text "@SQ\tSN:s\tLN:5\n"); a cut in the magic / l_text / n_ref / reference part is
+   UnexpectedEof, a cut inside the text line is InvalidData on a source that ends (the partial
+   @SQ line is refused) and the source's error on a source that fails; the whole block reads back *)
+Definition ex_bam_header : Sam.Header.header :=
+  Sam.Header.mkHeader None [Sam.Header.mkSq [115] 5 []] [] [] [].
+Definition ex_bam_block : list N :=
+  [66;65;77;1; 14;0;0;0; 64;83;81;9;83;78;58;115;9;76;78;58;53;10; 1;0;0;0; 2;0;0;0;115;0;5;0;0;0].
+Example c13_ex_bam_header :
+  Sam.HeaderProofs.wf_header ex_bam_header /\
+  Sam.BamHeader.write_bam_header ex_bam_header = Some ex_bam_block /\
+  bam_read_header Eof (firstn 3 ex_bam_block) = HErr UnexpectedEof /\
+  bam_read_header Eof (firstn 12 ex_bam_block) = HErr InvalidData /\
+  bam_read_header (Err UnexpectedEof) (firstn 12 ex_bam_block) = HErr UnexpectedEof /\
+  bam_read_header Eof (firstn 21 ex_bam_block) = HErr UnexpectedEof /\
+  bam_read_header Eof (firstn 35 ex_bam_block) = HErr UnexpectedEof /\
+  bam_read_header Eof (ex_bam_block ++ [7]) = HOk ex_bam_header [7].
+Proof.
+  split.
+  - unfold Sam.HeaderProofs.wf_header, ex_bam_header.
+    cbn [Sam.Header.h_hd Sam.Header.h_sq Sam.Header.h_rg Sam.Header.h_pg Sam.Header.h_co].
+    split; [exact I|]. split.
+    { constructor; [|constructor]. unfold Sam.HeaderProofs.wf_sq, Sam.HeaderProofs.others_ok.
+      cbn. split; [discriminate|]. split; constructor. }
+    split; [cbn; constructor; [intros []|constructor]|].
+    split; [constructor|]. split; [constructor|]. split; [constructor|]. split; constructor.
+  - vm_compute. repeat split.
+Qed.
+
+(* BCF: with a parser that accepts lines starting with '#' and a finish that wants two lines, the
+   text "##x\n#C\n" is a good header; its block has 17 bytes and every proper prefix is an error *)
+Definition ex_bcf_parse (st : N) (l : list N) : option N := match l with 35 :: _ => Some (st + 1) | _ => None end.
+Definition ex_bcf_finish (st : N) : option N := if st =? 2 then Some st else None.
+Example c13_ex_bcf_header :
+  let ls := [[35;35;120]; [35;67]] in
+  let hb := bcf_header_block 2 2 (bcf_text ls) in
+  let rd := bcf_read_header N N 0 ex_bcf_parse ex_bcf_finish in
+  bcf_header_good N N 0 ex_bcf_parse ex_bcf_finish ls 2 /\
+  length hb = 17%nat /\
+  rd Eof (firstn 2 hb) = HErr UnexpectedEof /\
+  rd Eof (firstn 11 hb) = HErr UnexpectedEof /\
+  rd Eof (firstn 16 hb) = HErr UnexpectedEof /\
+  rd (Err InvalidData) (firstn 16 hb) = HErr InvalidData /\
+  rd Eof (hb ++ [9]) = HOk 2 [9].
+Proof.
+  cbn zeta. split.
+  - split.
+    + repeat constructor; try (eexists; eexists; split; [reflexivity|split; discriminate]); discriminate.
+    + exists 2. split; reflexivity.
+  - vm_compute. repeat split.
+Qed.
+
+(* text header: the cut "@HD\tVN:1.6" of "@HD\tVN:1.6\tSO:unsorted\n" returns a header without the
+   sort order and no error on a source that ends, the error on a source that fails; one byte less
+   ("@HD\tVN:1.") is InvalidData; behind the header text the source's outcome does not matter *)
+Example c13_ex_text_header :
+  let text := htext [ex_hd_line] in
+  (exists h1, sam_text_read_header Eof text = HOk h1 [] /\
+     exists m, Sam.Header.h_hd h1 = Some m /\ Sam.Header.hd_other m <> []) /\
+  (exists h2, sam_text_read_header Eof (firstn 10 text) = HOk h2 [] /\
+     exists m, Sam.Header.h_hd h2 = Some m /\ Sam.Header.hd_other m = []) /\
+  sam_text_read_header (Err UnexpectedEof) (firstn 10 text) = HErr UnexpectedEof /\
+  sam_text_read_header Eof (firstn 9 text) = HErr InvalidData /\
+  sam_text_read_header Eof (text ++ [114; 49]) = sam_text_read_header (Err UnexpectedEof) (text ++ [114; 49]).
+Proof. exact text_header_example. Qed.
+
+(* CRAM blocks, with the real CRC-32: the 15-byte body of the EOF container is a good compression
+   header block; a hand-made slice (raw slice header block announcing 1 block, empty core block) is
+   a good slice; two of them behind a 3-byte prefix: cut inside the second -> the first decoded, then
+   UnexpectedEof; cut inside the first -> InvalidData (the second landmark is beyond the cut) *)
+Definition ex_blk (fields : list N) : list N := fields ++ le32 (crc32 fields).
+Definition ex_slice_hdr_content : list N :=
+  [255;255;255;255;15; 0; 0; 0; 0; 1; 0; 255;255;255;255;15] ++ repeat 0 16.
+Definition ex_slice : list N :=
+  ex_blk ([0; 2; 0; 32; 32] ++ ex_slice_hdr_content) ++ ex_blk [0; 5; 0; 0; 0].
+Example c13_ex_cram_blocks :
+  let dec := fun _ : blk => @inl ekind (list N) InvalidData in
+  block_good crc32 CT_COMPRESSION_HEADER [0;1;0;6;6;1;0;1;0;1;0;238;99;1;75] /\
+  slice_good crc32 dec ex_slice /\ length ex_slice = 50%nat /\
+  container_slices crc32 dec (offsets 3 [ex_slice; ex_slice]) ([9;9;9] ++ ex_slice ++ ex_slice) = ([0; 0], Eof) /\
+  container_slices crc32 dec (offsets 3 [ex_slice; ex_slice]) (firstn 102 ([9;9;9] ++ ex_slice ++ ex_slice)) =
+    ([0], Err UnexpectedEof) /\
+  container_slices crc32 dec (offsets 3 [ex_slice; ex_slice]) (firstn 52 ([9;9;9] ++ ex_slice ++ ex_slice)) =
+    ([], Err InvalidData).
+Proof.
+  cbn zeta. split; [eexists; vm_compute; reflexivity|].
+  split; [eexists; vm_compute; reflexivity|].
+  vm_compute. repeat split.
+Qed.
